@@ -1,18 +1,129 @@
 #!/usr/bin/env python3
-"""setup-time self test: every TLA+ module parses (SANY)."""
-import glob, os, subprocess, sys
+"""Self tests of the machinery.
+
+    selftest.py --sany      every TLA+ module parses (part of setup)
+    selftest.py --binding   the specification is bound to what is recorded: a trace of the
+                            real library is accepted, and the same trace with one recorded
+                            field corrupted, or one hook event removed, is rejected
+"""
+import glob
+import json
+import os
+import random
+import shutil
+import subprocess
+import sys
+
 VERIF = os.path.dirname(os.path.dirname(os.path.abspath(__file__)))
+sys.path.insert(0, os.path.join(VERIF, 'tools'))
 JAR = '/opt/veriftools/tla/tla2tools.jar:/opt/veriftools/tla/CommunityModules-deps.jar'
+
+
 def sany():
     bad = 0
     for f in sorted(glob.glob(os.path.join(VERIF, 'spec', '*.tla'))):
-        if '_TTrace_' in f: continue
+        if '_TTrace_' in f:
+            continue
         p = subprocess.run(['java', '-cp', JAR, 'tla2sany.SANY', os.path.basename(f)], cwd=os.path.join(VERIF, 'spec'),
                            stdout=subprocess.PIPE, stderr=subprocess.STDOUT, text=True)
         ok = p.returncode == 0 and 'Semantic errors' not in p.stdout and 'Parse Error' not in p.stdout and 'Fatal' not in p.stdout
         print('%-28s %s' % (os.path.basename(f), 'ok' if ok else 'FAILED'))
         if not ok:
-            print(p.stdout[-2000:]); bad += 1
+            print(p.stdout[-2000:])
+            bad += 1
     return bad
+
+
+def binding():
+    import vcheck as V
+    import plans
+    work = os.path.join(VERIF, 'work', 'selftest')
+    shutil.rmtree(work, ignore_errors=True)
+    os.makedirs(work)
+    bindir = V.build('rel')
+    rng = random.Random(7)
+    forests = [dict(kind='mtb_s', rule='F', dele='O'), dict(kind='mtb_s', rule='Q', dele='P')]
+    text = plans.history_script(rng, [2, 3, 2], forests, 60, snap_every=15)
+    [trace] = V.run_scripts(bindir, [('base', text)], work, lifecycle=True)
+    lines = open(trace).read().splitlines()
+
+    def verdict(name, newlines, module, cfg, tag):
+        t = os.path.join(work, 'traces', name + '.ndjson')
+        with open(t, 'w') as f:
+            f.write('\n'.join(newlines) + '\n')
+        v, k, st, tr, nl = V.validate([t], module, cfg, work, tag=tag + name, nshards=1)
+        return sorted(set((x[0], x[1]) for x in v))
+
+    fails = 0
+    base_api = verdict('ok', lines, 'MddApiTrace.tla', 'MddApiTrace.cfg', 'a')
+    base_store = verdict('ok', lines, 'MddStoreTrace.tla', 'MddStoreTrace.cfg', 's')
+    print('unmodified trace: api', base_api, 'store', base_store)
+    if [x for x in base_api + base_store if not x[1].startswith('KF:')]:
+        print('FAILED: the unmodified trace is not accepted')
+        fails += 1
+
+    # (a) corrupt one point of one recorded result table
+    idx = [i for i, l in enumerate(lines) if l.startswith('{"e":"Bin"') and '"fn":[' in l]
+    i = idx[len(idx) // 2]
+    ev = json.loads(lines[i])
+    ev['res']['fn'][0] = 1 - ev['res']['fn'][0]
+    mod = list(lines)
+    mod[i] = json.dumps(ev, separators=(',', ':'))
+    va = verdict('corrupt_fn', mod, 'MddApiTrace.tla', 'MddApiTrace.cfg', 'a')
+    print('(a) one function point flipped     ->', va)
+    if not any(k == 'wrong-function' for _, k in va):
+        print('FAILED: corrupted result accepted')
+        fails += 1
+
+    # (b) corrupt one incoming count in one snapshot
+    idx = [i for i, l in enumerate(lines) if l.startswith('{"e":"Snap"') and '"inc":' in l]
+    i = idx[0]
+    ev = json.loads(lines[i])
+    ev['nodes'][0]['inc'] += 1
+    mod = list(lines)
+    mod[i] = json.dumps(ev, separators=(',', ':'))
+    vb = verdict('corrupt_inc', mod, 'MddStoreTrace.tla', 'MddStoreTrace.cfg', 's')
+    print('(b) one incoming count incremented ->', vb)
+    if not any(k == 'incoming-count-differs-from-references' for _, k in vb):
+        print('FAILED: corrupted incoming count accepted')
+        fails += 1
+
+    # (c) remove one CTAdd event that is later hit (a missing hook)
+    def key_of(e):
+        return (e['ct'], e['id0'], e['id1'], e['id2'])
+    done = False
+    for hi, l in enumerate(lines):
+        if not l.startswith('{"e":"CTHit"'):
+            continue
+        key = key_of(json.loads(l))
+        # the add this hit answers: the latest CTAdd of that entry before the hit
+        adds = [i for i in range(hi) if lines[i].startswith('{"e":"CTAdd"') and key_of(json.loads(lines[i])) == key]
+        if adds:
+            mod = [x for j, x in enumerate(lines) if j != adds[-1]]
+            vc = verdict('drop_ctadd', mod, 'MddStoreTrace.tla', 'MddStoreTrace.cfg', 's')
+            print('(c) one CTAdd event removed        ->', vc)
+            if not any(p == 'C07' for p, _ in vc):
+                print('FAILED: missing hook event accepted')
+                fails += 1
+            done = True
+            break
+    if not done:
+        print('(c) skipped: no cache hit in this history')
+
+    # (d) remove one NewNode event
+    news = [i for i, l in enumerate(lines) if l.startswith('{"e":"NewNode"')]
+    mod = [l for j, l in enumerate(lines) if j != news[len(news) // 2]]
+    vd = verdict('drop_newnode', mod, 'MddStoreTrace.tla', 'MddStoreTrace.cfg', 's')
+    print('(d) one NewNode event removed      ->', vd)
+    if not any(p == 'C06' for p, _ in vd):
+        print('FAILED: missing NewNode event accepted')
+        fails += 1
+    shutil.rmtree(work, ignore_errors=True)
+    print('binding self test:', 'FAILED' if fails else 'ok')
+    return fails
+
+
 if __name__ == '__main__':
+    if '--binding' in sys.argv:
+        sys.exit(1 if binding() else 0)
     sys.exit(1 if sany() else 0)
